@@ -3,7 +3,11 @@
    records, for every case, one event per call of Pass::findNDoRule - the rule that fired (0 = none) and the position
    of the cursor in the stream - and one event per finished pass (GRAPHITE2_VERIF hook events 2 and 1).  Each Step
    event must be the StepRun of the reference semantics at that cursor with that winning rule, each PassEnd its
-   NextPass; a Case event starts the next (program, text, feature vector). *)
+   NextPass; a Case event starts the next (program, text, feature vector).
+   The engine may leave a pass out altogether (the segment's pass-skip bits, Silf::runGraphite): hook event 5 says which
+   pass it is about to run (PassBegin).  Leaving passes out is accepted only where it cannot be seen - no rule of a
+   skipped pass has a winner at any position of the stream as it then is - also for the passes still outstanding
+   when the call returns (CaseEnd). *)
 EXTENDS GdlRef
 
 Log == ndJsonDeserialize(IOEnv.TRACE)
@@ -29,7 +33,19 @@ TStep == /\ IsEvent("Step")
 
 TPassEnd == IsEvent("PassEnd") /\ NextPass
 
-TNext == TCase \/ TStep \/ TPassEnd
+\* running pass q on the present stream would change nothing
+Invisible(q) == \A i \in 1..Len(stream) : Winner(q, i) = 0
+TPassBegin == /\ IsEvent("PassBegin")
+              /\ phase = "run" /\ cur = 1 /\ Ev.p >= pass /\ Ev.p <= Len(prog)
+              /\ \A q \in pass..(Ev.p - 1) : Invisible(q)
+              /\ pass' = Ev.p
+              /\ UNCHANGED <<prog, text, phase, bpos, stream, slot, nextid, cur, fired, stuck, feats, cfeats>>
+TCaseEnd == /\ IsEvent("CaseEnd")
+            /\ phase = "run" /\ cur = 1
+            /\ \A q \in pass..Len(prog) : Invisible(q)
+            /\ UNCHANGED vars
+
+TNext == TCase \/ TStep \/ TPassEnd \/ TPassBegin \/ TCaseEnd
 TSpec == TInit /\ [][TNext]_tvars
 Accepted == TLCGet("stats").diameter - 1 = Len(Log)
 =============================================================================
